@@ -39,18 +39,18 @@ TIERS = {
         "cfg": {"MAXN": 3, "FULLN": 2, "LEAFS": "{1, 2}", "BRANCH": 2,
                 "FAMSEL": '{"full", "ring", "func1", "func2", "sim", "deep"}',
                 "DEPTHS": "{1000, 100000}", "BIGDEPTHS": "{}"},
-        "cyc_per_op": {"create": 250, "send": 120, "collect": 250, "drop": 250,
-                       "write": 220, "display": 220, "hashkey": 220, "hashset": 120,
-                       "equal": 500, "hashfind": 60},
-        "cyc_timeout_ms": 2500, "deep_small_timeout_ms": 15000, "deep_timeout_ms": 40000, "deep_big_timeout_ms": 60000,
+        "cyc_per_op": {"create": 200, "send": 60, "collect": 80, "drop": 200,
+                       "write": 100, "display": 100, "hashkey": 60, "hashset": 40,
+                       "equal": 400, "hashfind": 30},
+        "cyc_timeout_ms": 2500, "deep_small_timeout_ms": 15000, "deep_timeout_ms": 30000, "deep_big_timeout_ms": 60000,
     },
     "thorough": {
         "cfg": {"MAXN": 4, "FULLN": 2, "LEAFS": "{1, 2}", "BRANCH": 2,
                 "FAMSEL": '{"full", "ring", "func1", "func2", "sim", "deep"}',
                 "DEPTHS": "{1000, 10000, 100000}", "BIGDEPTHS": "{1000000}"},
-        "cyc_per_op": {"create": 3000, "send": 800, "collect": 3000, "drop": 3000,
+        "cyc_per_op": {"create": 3000, "send": 800, "collect": 600, "drop": 3000,
                        "write": 1500, "display": 1500, "hashkey": 1500, "hashset": 800,
-                       "equal": 6000, "hashfind": 400},
+                       "equal": 8000, "hashfind": 400},
         "cyc_timeout_ms": 2500, "deep_small_timeout_ms": 20000, "deep_timeout_ms": 60000, "deep_big_timeout_ms": 120000,
     },
 }
@@ -180,6 +180,29 @@ def symptom(case, v):
     return "other"
 
 
+def confirm(cases, verdicts, work, timeout_ms, stats, findings):
+    """A hang that no known finding explains is re-run once, alone, before it counts: the limit is
+    wall-clock on a shared box, and a case that spawns a thread can fall victim to the runtime's
+    thread start-up / stop-the-world protocol (C15-C17) independently of the value it carries.  A
+    hang caused by the value is deterministic and hangs again."""
+    again = []
+    for i, (c, v) in enumerate(zip(cases, verdicts)):
+        if not v["pass"] and symptom(c, v) == "hang":
+            mc = dict(strip(c), tag=c["tag"] + "|got=hang")
+            if not vlib.match_finding(PROP, mc, v, findings):
+                again.append(i)
+    if not again:
+        return verdicts
+    re_cases = [dict(strip(cases[i]), id=cases[i]["id"] + "-again", fresh=True) for i in again]
+    re_v = vlib.replay(re_cases, work, jobs=min(4, len(re_cases)), timeout_ms=timeout_ms, name="confirm", binary=BINARY)
+    out = list(verdicts)
+    for i, v in zip(again, re_v):
+        if v["pass"]:
+            stats["unconfirmed_hangs"].append(cases[i]["tag"])
+            out[i] = dict(v, id=cases[i]["id"])
+    return out
+
+
 def judge(r, cases, verdicts, stats):
     for c, v in zip(cases, verdicts):
         op = c["meta"]["op"]
@@ -285,7 +308,7 @@ def run(tier, seed):
     os.makedirs(work, exist_ok=True)
     T = TIERS[tier]
     r = vlib.Result(PROP, tier, seed)
-    stats = {"cyc": {}, "deep": {}, "passing": [], "groups": {}, "by_finding": {}, "violations": 0, "error_values": {},
+    stats = {"cyc": {}, "deep": {}, "passing": [], "groups": {}, "by_finding": {}, "violations": 0, "error_values": {}, "unconfirmed_hangs": [],
              "text": {"printed": 0, "same_as_r7rs_form": 0, "labels_first_layout": 0, "other": 0, "examples": []}}
     only = os.environ.get("C18_ONLY", "")
     if only in ("", "model"):
@@ -320,6 +343,7 @@ def run(tier, seed):
         for name, group, tmo in batches + [("cycgc", gc, 8 * T["cyc_timeout_ms"])]:
             if group:
                 verdicts = vlib.replay([strip(c) for c in group], work, jobs=12, timeout_ms=tmo, name=name, binary=BINARY)
+                verdicts = confirm(group, verdicts, work, tmo, stats, r.findings)
                 judge(r, group, verdicts, stats)
     if only in ("", "deep"):
         small = [c for c in deep if c["meta"]["n"] <= 1000]
@@ -331,6 +355,7 @@ def run(tier, seed):
                 # heavy cases first in every chunk would serialise; shuffle (seeded) to balance the jobs
                 random.Random(seed).shuffle(group)
                 verdicts = vlib.replay([strip(c) for c in group], work, jobs=12, timeout_ms=tmo, name=name, binary=BINARY)
+                verdicts = confirm(group, verdicts, work, tmo, stats, r.findings)
                 judge(r, group, verdicts, stats)
     if os.environ.get("C18_DEBUG"):
         with open(os.path.join(work, "groups.json"), "w") as f:
